@@ -446,6 +446,15 @@ func verifC14RandBytes(n int) []byte { // model of internal/random.Bytes (engine
 	return b
 }
 
+// verifC14Alone is Process on one statement of the table alone.
+func verifC14Alone(p int, rwrand, rwtime bool) string {
+	st := []*proto.Statement{{Sql: verifC14Pieces[p].sql}}
+	if err := Process(st, rwrand, rwtime); err != nil {
+		return "error: " + err.Error()
+	}
+	return st[0].Sql
+}
+
 func VerifC14Glue() {
 	verifPanicsAreViolations()
 	k := 1 + verifChoice("stmts", 2+verifTier())
@@ -486,7 +495,7 @@ func VerifC14Glue() {
 
 	// 1. every statement of the text is still there
 	if len(outs) != k {
-		if k >= 2 && len(outs) == 1 && out != in && (need[0] || first.timeFn && rwtime) && (!verifSymbolic() && verifC14Effect(in) != verifC14Effect(out) || verifSymbolic()) {
+		if k >= 2 && len(outs) == 1 && out != in && (need[0] || first.timeFn && rwtime) {
 			verifFinding("C14-multi-statement-rest-dropped")
 		}
 		verifAssert("C14-every-statement-kept", false)
@@ -494,8 +503,14 @@ func VerifC14Glue() {
 	// 2. nothing to replace: byte-identical
 	if !anyNeed {
 		verifReach("nothing-to-replace")
-		if out != in && first.timeFn && rwtime {
-			verifFinding("C14-modified-without-replacement")
+		if out != in && rwtime {
+			// the cause is a date/time call without 'now' if such a statement, processed
+			// alone, is re-printed as well
+			for _, p := range idx {
+				if pc := verifC14Pieces[p]; pc.timeFn && verifC14Alone(p, rwrand, rwtime) != pc.sql {
+					verifFinding("C14-modified-without-replacement")
+				}
+			}
 		}
 		verifAssert("C14-unchanged-text-byte-identical", out == in)
 		return
@@ -505,10 +520,13 @@ func VerifC14Glue() {
 		pc := verifC14Pieces[idx[i]]
 		if need[i] && strings.Contains(outs[i], pc.marker) {
 			if verifSymbolic() || verifC14Varies(out) {
-				if i >= 1 && out == in {
+				// which defect? Process the statement alone: if the call stays there as well it
+				// is the statement's own class, else the position in the text is the cause
+				aloneKept := strings.Contains(verifC14Alone(idx[i], rwrand, rwtime), pc.marker)
+				if !aloneKept && i >= 1 && out == in {
 					verifFinding("C14-multi-statement-later-not-rewritten")
 				}
-				if i == 0 && pc.implicit {
+				if aloneKept && pc.implicit {
 					verifFinding("C14-implicit-now-zero-args")
 				}
 			}
